@@ -570,8 +570,11 @@ class Interp:
             if a is None or b is None:
                 return None
             try:
-                return {'==': int(a == b), '!=': int(a != b), '<': int(a < b), '>': int(a > b), '<=': int(a <= b), '>=': int(a >= b),
-                        '&': a & b, '|': a | b, '^': a ^ b, '+': a + b, '-': a - b, '*': a * b, '<<': a << b, '>>': a >> b}.get(op)
+                if op in ('<<', '>>') and not (0 <= b < 128):
+                    return None
+                f_ = {'==': lambda: int(a == b), '!=': lambda: int(a != b), '<': lambda: int(a < b), '>': lambda: int(a > b), '<=': lambda: int(a <= b), '>=': lambda: int(a >= b),
+                      '&': lambda: a & b, '|': lambda: a | b, '^': lambda: a ^ b, '+': lambda: a + b, '-': lambda: a - b, '*': lambda: a * b, '<<': lambda: a << b, '>>': lambda: a >> b}.get(op)
+                return f_() if f_ else None
             except Exception:
                 return None
         if k == 'Cond':
@@ -685,7 +688,14 @@ class Interp:
 
     EQ_RE = re.compile(r'^EQ\((.*),([^,()]+)\)$')
 
+    NE_RE = re.compile(r'^operator!=((?:@\d+)?\()')
+
     def atom(self, atom, st):
+        if self.NE_RE.match(atom):
+            # x != y is decided as !(x == y): one atom per comparison, so that a path cannot take both 'x != y' and 'x == y'
+            for s, t in self.atom(self.NE_RE.sub(r'operator==\1', atom, 1), st):
+                yield s, (not t)
+            return
         if (atom, True) in st.facts:
             yield st, True
             return
